@@ -11,6 +11,10 @@ SEEDED = '/verif/seeded'
 
 # what the change is / what it needs to manifest (one line; the full text is NOTES.txt next to the patch)
 NEEDS = {
+    'C04-stream-gc-before-manifest': "stream persistSnapshot deletes the superseded .snp manifests before the new one is written: needs a crash between the deletion and the rename of the new manifest on a shard's second or later publication (restart then finds no manifest and removes every part as an orphan)",
+    'C17-file-boundary-truncation': "sub processPart counts a file's announced size only when some of its bytes are present: needs a chunk cut exactly at a file boundary with a checksum and completion totals computed from what was really sent (a sender-side short read), then the part is installed with a whole file missing",
+    'C13-verdict-cursor-shift': 'trace flushStaged advances the verdict cursor for every eligible group: needs a projecting sampler, a trace split over >= 3 parts with ~2 MiB of payload (mixed slow+raw group) followed by a drop verdict; the keep/drop verdicts of later traces shift by one',
+    'C19-backup-cancel-swallowed': "backupSnapshot drops every context.Canceled from the upload group: needs the caller's context cancelled after the walk dispatched every file while small-file uploads are in flight; returns nil with an incomplete remote copy and prunes the previous backup's files",
     'C01-strarray-inplace-decode': 'string-array tag decoded in place after a merge: needs an array element containing the delimiter byte and a merge of the part',
     'C01-varint-plus64': 'var-int fast path extended to +64: needs a stored delta of exactly +64 inside one block (int field/tag, float mantissa, timestamp or version progression)',
     'C02-batch-version-unsigned': 'batch-internal version comparison made unsigned: needs two versions of one (series, ts) in ONE write batch',
